@@ -26,7 +26,12 @@ CFG = {
                  "when e fails or is undefined; ternary/and/or shapes with bare variables and dotted paths (bound, unbound) in every branch. "
                  "Computed keys: 8 maps (literals with integer/string/bool keys, folded and with a spread; context maps keyed by u64 / i64 / i128+u128 / strings) x 29 keys "
                  "(literals, variables of every integer width, `0 + 1`, `n * 1`, `3 - 2`, `4 // 2`, `7 % 4`, `'a' ~ 'b'`, `xs | length`, ternaries, `or`/default) under "
-                 "`[]`, `?[`, `in`, `not in`; arrays indexed by the same keys; the model looks keys up by mathematical value across widths (Model.Order.key_eq).",
+                 "`[]`, `?[`, `in`, `not in`; arrays indexed by the same keys; the model looks keys up by mathematical value across widths (Model.Order.key_eq). "
+                 "Nested short-circuit: a same-operator and/or (two and three operands) inside 10 non-logical wrappers (not, ==, !=, default, is defined, is string, ~, [.][0], "
+                 "ternary branch, unary minus) as LEFT and RIGHT operand of an outer and/or and as ternary condition, over all assignments of the operands from the truth pool; "
+                 "each also through `{% if %}` / `{% elif %}` (oracle: the branch taken = truth of the probed value). Float x integer: all six comparison operators in both "
+                 "operand orders for floats n, n +- ulp, n +- 0.5/0.25/0.75 around n in -3..3, +-2^53 and the i64/u64/i128/u128 edges, against n-1, n, n+1; the model compares "
+                 "the two rationals exactly (Order.dy_cmp).",
     "trusted_base": TB_COMMON + [
         "axioms: none (every C02 theorem is 'Closed under the global context')",
         "tools/gen/bp.py: transcribes binary_binding_power / unary_binding_power / TERNARY_L_BP and the documented precedence rows",
